@@ -43,7 +43,8 @@ vars == <<slot, cfg, ev>>
 \* conflicting side.  All of u1's routes share flag 0 unless stated.
 A(u, f, l, d) == [uid |-> u, flag |-> f, level |-> l, dev |-> d]
 ProfileTable ==
-  [P3 |-> << A("u1", 0, 1, "a"), A("u1", 0, 0, "a"), A("u1", 0, 0, "b") >>,
+  [P2 |-> << A("u1", 0, 1, "a"), A("u1", 0, 0, "a") >>,
+   P3 |-> << A("u1", 0, 1, "a"), A("u1", 0, 0, "a"), A("u1", 0, 0, "b") >>,
    P4 |-> << A("u1", 0, 1, "a"), A("u1", 0, 0, "a"), A("u1", 0, 0, "b"), A("u2", 0, 1, "a") >>,
    Q4 |-> << A("u1", 0, 0, "a"), A("u1", 0, 0, "a"), A("u2", 0, 1, "a"), A("u2", 0, 1, "b") >>,
    S6 |-> << A("u1", 0, 1, "a"), A("u1", 0, 0, "a"), A("u1", 0, 0, "b"),
